@@ -52,7 +52,15 @@ fn known_class(instrs: &[Instruction]) -> Option<&'static str> {
                 body(&d.instructions)
             }
             Instruction::MeasureCalibrationDefinition(d) => body(&d.instructions),
-            Instruction::CircuitDefinition(d) => body(&d.instructions),
+            Instruction::CircuitDefinition(d) => body(&d.instructions).or_else(|| {
+                // DEFCIRCUIT indents its body by splitting each instruction's text on '\n': a quoted
+                // string containing a newline gets the indentation inserted INSIDE the string
+                if d.instructions.iter().any(|i| i.to_quil_or_debug().contains('\n')) {
+                    Some("defcircuit-multiline-string")
+                } else {
+                    None
+                }
+            }),
             Instruction::RawCapture(r) => {
                 let dur = r.duration.to_quil_or_debug();
                 if r.memory_reference.name == "i" && dur.chars().last().is_some_and(|c| c.is_ascii_digit() || c == '.') {
@@ -376,6 +384,11 @@ fn main() {
         "DEFCIRCUIT C:\n\tDEFGATE G AS PERMUTATION:\n\t0, 1",
         "DEFCAL X 0:\n\tDEFWAVEFORM w:\n\t1, 2",
         "DEFCAL MEASURE 0:\n\tDEFCAL MEASURE 1:\n\tX 0",
+        // open finding defcircuit-multiline-string: a string with a newline inside a DEFCIRCUIT body
+        "DEFCIRCUIT BELL:\n\tDELAY 7 \"ro_rx\" \"r\n_rx\" (pi)",
+        "DEFCIRCUIT C q:\n\tPRAGMA note \"two\nlines\"\n\tX q",
+        // the same strings in a DEFCAL body round-trip (its writer does not split lines)
+        "DEFCAL X 0:\n\tPRAGMA note \"two\nlines\"",
     ] {
         cx.program_case(t, "corpus-program");
     }
